@@ -11,6 +11,8 @@ import (
 
 	"github.com/ChrisTrenkamp/xsel"
 	"github.com/ChrisTrenkamp/xsel/node"
+	"github.com/ChrisTrenkamp/xsel/parser"
+	"github.com/ChrisTrenkamp/xsel/store"
 
 	"xselverif/internal/adoc"
 	"xselverif/internal/evid"
@@ -22,7 +24,7 @@ import (
 func init() {
 	Register(&Monitor{
 		ID: "C16",
-		Rule: "per case a random JSON text (objects/arrays nested to depth 30, one case in forty wrapped in a further 31..300 levels of objects and arrays, empty containers in every position, duplicate/empty/odd keys, scalars of every kind at top level and inside, several concatenated top-level values) rendered with random whitespace, string escapes and number spellings (one case in twelve with the first of several top-level values ending exactly on byte 512) -> xsel.ReadJson, once from a reader that delivers everything in one Read and once piecewise (pseudo-random chunks of 1..23 bytes / one byte per Read / a Read ending after every closing brace or bracket; malformed inputs use one of the four patterns chosen by their content); oracle: direct recursive mapping written from the README (#obj/#arr, one element per member named by the key, one text node per scalar, siblings never merged) compared by parallel walk plus the C10 structural invariants, numbers accepted iff they read back to the same double with the minimal number of significant digits; " +
+		Rule: "per case a random JSON text (objects/arrays nested to depth 30, one case in forty wrapped in a further 31..300 levels of objects and arrays, empty containers in every position, duplicate/empty/odd keys, scalars of every kind at top level and inside, several concatenated top-level values) rendered with random whitespace, string escapes and number spellings (one case in twelve with the first of several top-level values ending exactly on byte 512) -> xsel.ReadJson, once from a reader that delivers everything in one Read and once piecewise (pseudo-random chunks of 1..23 bytes / one byte per Read / a Read ending after every closing brace or bracket / a seekable reader the caller has positioned after a header of its own; malformed inputs use one of the four patterns chosen by their content); oracle: direct recursive mapping written from the README (#obj/#arr, one element per member named by the key, one text node per scalar, siblings never merged) compared by parallel walk plus the C10 structural invariants, numbers accepted iff they read back to the same double with the minimal number of significant digits; " +
 			"malformed: every proper prefix of the rendering (capped) plus single-token deletions/insertions: whenever encoding/json's Decoder.Decode loop rejects the bytes as a sequence of complete values, ReadJson must return a non-nil error. distinct_nontrivial = distinct value-shape signatures and distinct (malformation kind, shape)",
 		NCases: func(tier string) int { return map[string]int{"quick": 50000, "thorough": 3000000}[tier] },
 		Case:   c16Case,
@@ -281,7 +283,44 @@ func safeReadJsonMode(b []byte, mode int) (c xsel.Cursor, err error) {
 	return xsel.ReadJson(rd)
 }
 
+// c16Alternating: two JSON parsers pulled alternately, one event each.
+func c16Alternating(r *evid.Run, idx int, g *rng.R) {
+	var texts [2]string
+	var docs [2]*adoc.Doc
+	var nums [2]map[*adoc.Node]float64
+	for k := 0; k < 2; k++ {
+		v := genJSON(g, 0)
+		var sb strings.Builder
+		v.render(g, &sb)
+		texts[k] = sb.String()
+		docs[k] = adoc.NewDoc()
+		nums[k] = map[*adoc.Node]float64{}
+		mapJSON(docs[k], docs[k].Root, v, nums[k])
+		docs[k].Finish()
+	}
+	ra, rb, ea, eb := buildAlternating(parser.ReadJson(strings.NewReader(texts[0])), parser.ReadJson(strings.NewReader(texts[1])))
+	r.Eval(2)
+	r.Count("alternating_parser_pairs", 1)
+	for k, t := range []struct {
+		root store.Cursor
+		err  error
+	}{{ra, ea}, {rb, eb}} {
+		if t.err != nil {
+			r.Violate("alternating/error", map[string]any{"case": idx, "what": fmt.Sprintf("text %d of two JSON texts parsed alternately: %v", k, t.err), "json": texts[k]})
+			continue
+		}
+		patchNumbers(t.root, docs[k].Root, nums[k])
+		if class, what := checkStore(t.root, docs[k]); class != "" {
+			r.Violate("alternating/"+class, map[string]any{"case": idx, "what": fmt.Sprintf("text %d of two JSON texts parsed alternately: %s", k, what), "json": texts[k], "other_json": texts[1-k]})
+		}
+	}
+}
+
 func c16Case(r *evid.Run, tier string, idx int, g *rng.R) {
+	if idx%30 == 11 {
+		c16Alternating(r, idx, g)
+		return
+	}
 	var tops []*jval
 	ntop := 1
 	if g.P(20) {
@@ -361,7 +400,7 @@ func c16Case(r *evid.Run, tier string, idx int, g *rng.R) {
 		return
 	}
 	// the valid text is read twice: in one Read, and through one of the piecewise readers
-	mode2 := 1 + idx%3
+	mode2 := 1 + idx%4
 	_, how := hostileReader(nil, mode2)
 	root, err := safeReadJsonMode([]byte(text), 0)
 	root2, err2 := safeReadJsonMode([]byte(text), mode2)
